@@ -7,6 +7,8 @@ pub type Name = String;
 pub enum Datum {
     Int(i32),
     Ratio(i32, i32),
+    /// an inexact real, written as given (e.g. "2.0", "-0.5")
+    Real(String),
     Bool(bool),
     Sym(String),
     Str(String),
@@ -135,8 +137,24 @@ impl LibDef {
             .iter()
             .map(|(i, e)| if i == e { format!(" {}", i) } else { format!(" (rename {} {})", i, e) })
             .collect();
-        let body: String = self.body.iter().map(|f| format!("\n    {}", render_form(f))).collect();
-        format!("(define-library ({})\n  (import{})\n  (export{})\n  (begin{}))\n", self.name, imports, exports, body)
+        // an import form among the body forms is a further import declaration of the library: the body is split there
+        let mut decls = String::new();
+        let mut group = String::new();
+        for f in &self.body {
+            if let Form::Import(specs) = f {
+                if !group.is_empty() {
+                    decls.push_str(&format!("\n  (begin{})", group));
+                    group.clear();
+                }
+                decls.push_str(&format!("\n  (import{})", specs.iter().map(|i| format!(" {}", i.render())).collect::<String>()));
+            } else {
+                group.push_str(&format!("\n    {}", render_form(f)));
+            }
+        }
+        if !group.is_empty() || decls.is_empty() {
+            decls.push_str(&format!("\n  (begin{})", group));
+        }
+        format!("(define-library ({})\n  (import{})\n  (export{}){})\n", self.name, imports, exports, decls)
     }
 }
 
@@ -184,6 +202,7 @@ pub fn datum_tokens(d: &Datum, out: &mut Vec<Tok>, m: u8) {
     match d {
         Datum::Int(i) => t(out, &i.to_string(), m),
         Datum::Ratio(a, b) => t(out, &format!("{}/{}", a, b), m),
+        Datum::Real(x) => t(out, x, m),
         Datum::Bool(b) => t(out, if *b { "#t" } else { "#f" }, m),
         Datum::Sym(s) => t(out, s, m),
         Datum::Str(s) => t(out, &str_literal(s), m),
